@@ -115,8 +115,20 @@ func execFcase(c *Ctx, id, content, hspec string, items []string) {
 
 var c02Payloads = [][]byte{{}, {0}, {1}, {'a'}, {'a', 'b'}, {0, 'a', 1}, {'x', 'y', 'z', 'w'}, {1, 1, 1, 1, 1, 1}}
 
+// offsets and sizes around the block sizes an implementation may use internally
+var c02Thresholds = []int{4095, 4096, 4097, 8192, 8193, 12288, 32768}
+
+// c02Big: the case being generated may use the thresholds (one case in twelve: contents of
+// tens of kilobytes make the model's digest slow)
+var c02Big bool
+
 func genHandleOp(r *Rng, h int, size int) string {
-	off := func() int { return r.Range(-3, size+6) }
+	off := func() int {
+		if c02Big && r.Chance(1, 12) {
+			return Pick(r, c02Thresholds) + Pick(r, []int{0, 0, size, size - 4, -1, 1})
+		}
+		return r.Range(-3, size+6)
+	}
 	switch r.Intn(14) {
 	case 0, 1:
 		return fmt.Sprintf(". - HRead %d %d", h, r.Range(0, 7))
@@ -138,6 +150,9 @@ func genHandleOp(r *Rng, h int, size int) string {
 		}
 		return fmt.Sprintf(". - HSeek %d %d %d", h, o, wh)
 	case 11:
+		if r.Chance(1, 20) {
+			return fmt.Sprintf(". - HTruncate %d %d", h, off())
+		}
 		return fmt.Sprintf(". - HTruncate %d %d", h, r.Range(-2, size+6))
 	case 12:
 		if r.Chance(1, 4) {
@@ -192,6 +207,7 @@ func runC02(c *Ctx) {
 	c.Extra["exhaustive"] = fmt.Sprintf("all sequences of length<=%d over %d op templates on content 'ab': %d cases", exLen, len(templates), k)
 	// (2) random: 1-4 handles (rw / ro / closed), <= 40 ops
 	for i := 0; i < nRandom; i++ {
+		c02Big = i%12 == 0
 		nh := r.Range(1, 4)
 		var hs []string
 		for j := 0; j < nh; j++ {
@@ -216,6 +232,7 @@ func runC02(c *Ctx) {
 	// (3) the same through files obtained from MemMapFs.Create/Open/OpenFile
 	flagsets := []int{0, 1, 2, 0x40, 0x42, 0x242, 0x201, 0x402, 0x401, 0x1000, 0x101000, 0x80, 0xc2}
 	for i := 0; i < nFs; i++ {
+		c02Big = i%12 == 0
 		var items []string
 		items = append(items, ". 0 Create 2f66")
 		size := r.Range(0, 6)
@@ -228,11 +245,13 @@ func runC02(c *Ctx) {
 		}
 		nh := r.Range(1, 3)
 		for j := 1; j <= nh; j++ {
+			// every spelling names the same file: all handles share its bytes
+			sp := hx([]byte(Pick(r, []string{"/f", "/f", "/f", "//f", "/./f", "/f/", "/x/../f"})))
 			switch r.Intn(3) {
 			case 0:
-				items = append(items, fmt.Sprintf(". %d Open 2f66", j))
+				items = append(items, fmt.Sprintf(". %d Open %s", j, sp))
 			default:
-				items = append(items, fmt.Sprintf(". %d OpenFile 2f66 %d 420", j, Pick(r, flagsets)))
+				items = append(items, fmt.Sprintf(". %d OpenFile %s %d 420", j, sp, Pick(r, flagsets)))
 			}
 		}
 		nops := r.Range(1, 25)
@@ -240,6 +259,34 @@ func runC02(c *Ctx) {
 			items = append(items, genHandleOp(r, r.Intn(nh+1), size+4))
 		}
 		items = append(items, ". - Stat 2f66", "snap .")
-		RunCase(c, fmt.Sprintf("m%d", i), "mem", items)
+		// final sweep: every handle that is still usable shows the same bytes and the same size
+		first := len(items)
+		for j := 0; j <= nh; j++ {
+			items = append(items, fmt.Sprintf(". - HStat %d", j), fmt.Sprintf(". - HReadAt %d 70000 0", j))
+		}
+		id := fmt.Sprintf("m%d", i)
+		outs := RunCase(c, id, "mem", items)
+		if len(outs) == len(items) {
+			size, data := "", ""
+			for k := first; k < len(outs); k++ {
+				o := outs[k]
+				switch {
+				case strings.HasPrefix(o, "info:"):
+					f := strings.Split(o[5:], "|")
+					if size == "" {
+						size = f[2]
+					} else if f[2] != size {
+						c.Oracle("FAIL %s shared:handles-disagree:size step %d (%s): size %s, an earlier handle of the same file said %s", id, k, items[k], f[2], size)
+					}
+				case strings.HasPrefix(o, "data:") && (strings.HasSuffix(o, ":EOF") || strings.HasSuffix(o, ":-")):
+					d := strings.Split(o, ":")[1]
+					if data == "" {
+						data = "=" + d
+					} else if "="+d != data {
+						c.Oracle("FAIL %s shared:handles-disagree:bytes step %d (%s): %s, an earlier handle of the same file read %s", id, k, items[k], o, data[1:])
+					}
+				}
+			}
+		}
 	}
 }
